@@ -490,6 +490,34 @@ var signatureTable = map[string]func(a aux) bool{
 		}
 		return (a["phase"] == "fatal" && a["class"] == "out-of-memory") || (a["class"] == "string" && strings.Contains(a["panic"], "reflect.MakeSlice: negative len"))
 	},
+
+	// ---- round 8
+
+	"c02-gostruct-marshal-stale": func(a aux) bool {
+		return strings.HasPrefix(a["bridged"], "stale_") && in(a["class"], "string", "error(*reflect.ValueError)") && strings.Contains(a["panic"], "reflect.Value.Interface on zero Value") &&
+			in(a["site"], "goStructMarshalJSON", "builtinJSONStringifyWalk")
+	},
+
+	"c02-call-reentrant-at-limit": func(a aux) bool {
+		return a["route"] == "reentry" && strings.HasPrefix(a["body"], "Otto.Call") && a["phase"] == "reentrant-api" && a["class"] == "*otto.exception" &&
+			a["site"] == "(*runtime).enterScope"
+	},
+
+	"c02-tovalue-nil-object": func(a aux) bool {
+		return a["phase"] == "nil-objects" && a["class"] == "nil-deref" && a["site"] == "toValue"
+	},
+
+	"c02-keys-bridged-map-keys": func(a aux) bool {
+		return in(a["bridged"], "ifacemap", "structmap") && a["class"] == "otto.ottoError" && in(a["site"], "toValue", "reflectValuePanic") &&
+			strings.Contains(a["panic"], "TypeError invalid value")
+	},
+
+	"c02-export-quadratic-depth": func(a aux) bool {
+		if !in(a["construct"], "data-list", "data-nested-array", "data-prototype-chain", "data-closure-chain") || a["route"] != "Export" || a["phase"] != "fatal" {
+			return false
+		}
+		return (a["class"] == "out-of-memory" && a["site"] == "Value.exportSeen") || (a["class"] == "hang" && a["depth"] == "1000000")
+	},
 }
 
 // hugeInput: the case is one of the claimed-length groups.
